@@ -126,6 +126,16 @@ def _run_laws(desc):
         gv = C.xyz2gv(xyz, om * osign)
         if np.abs(gv.T - g).max() > 1e-11 * modg.max():
             sh.violation("C-compute_gv-differs-from-python-g", dict(case, omegasign=osign), {})
+        # history on ONE Ctransform object: results handed out earlier stay what they were when it is used again, and the rigid
+        # rotation law holds between two of its answers
+        gv_kept, geo_kept = gv.copy(), geo.copy()
+        gv2 = C.xyz2gv(xyz, (om + 25.0) * osign)
+        geo2 = C.xyz2geometry(xyz, (om + 25.0) * osign)
+        gv3 = C.sf2gv(np.zeros(n), np.zeros(n), om * osign)
+        if not (np.array_equal(gv, gv_kept) and np.array_equal(geo, geo_kept)):
+            sh.violation("Ctransform:earlier-result-overwritten-by-a-later-call", dict(case, omegasign=osign), {})
+        elif np.abs(gv2.T - np.dot(rz(-25.0), gv.T)).max() > 1e-11 * modg.max() or np.abs(geo2[:, 3:6].T - np.dot(rz(-25.0), geo[:, 3:6].T)).max() > 1e-11 * modg.max():
+            sh.violation("omega-does-not-rotate-g-rigidly:C", dict(case, omegasign=osign, delta=25.0), {})
     # (iv) invert and go forward again
     margin = can_diffract(g, wvln, wedge, chi)
     t2, (e1, e2), (o1, o2) = tr.uncompute_g_vectors(g, wvln, wedge=wedge, chi=chi)
@@ -237,6 +247,15 @@ def _run_detector(desc):
         fc, sc = tr.compute_xyz_from_tth_eta(tth, eta, om, **p)
         t2, e2 = tr.compute_tth_eta(np.array([sc, fc]), omega=om, **p)
         case = {"kind": "detector", "pars": pars}
+        # the compiled way back (Ctransform, as columnfile.updateGeometry uses it) from the same detector positions
+        C = tr.Ctransform(pars)
+        geo = C.xyz2geometry(C.sf2xyz(np.ascontiguousarray(sc, float), np.ascontiguousarray(fc, float)), om * osn, p["t_x"], p["t_y"], p["t_z"])
+        dtc = np.abs(geo[:, 0] - tth)
+        dec = np.abs((geo[:, 1] - eta + 180) % 360 - 180)
+        if not np.isfinite(geo).all() or dtc.max() > 1e-8 or (dec * np.sin(np.radians(tth))).max() > 1e-8:
+            i = int(np.argmax(dtc + dec))
+            sh.violation("detector-round-trip:compiled-route", dict(case, tth=tth[i], eta=eta[i], omega=om[i]),
+                         {"tth_back": geo[i, 0], "eta_back": geo[i, 1], "sc": sc[i], "fc": fc[i]})
         dt = np.abs(t2 - tth)
         de = np.abs((e2 - eta + 180) % 360 - 180)
         if not np.isfinite(t2).all() or dt.max() > 1e-8 or (de * np.sin(np.radians(tth))).max() > 1e-8:
@@ -279,5 +298,9 @@ def replay(case):
         fc, sc = tr.compute_xyz_from_tth_eta(tth, eta, om, **p)
         t2, e2 = tr.compute_tth_eta(np.array([sc, fc]), omega=om, **p)
         ok = abs(t2[0] - tth[0]) < 1e-8 and abs((e2[0] - eta[0] + 180) % 360 - 180) * np.sin(np.radians(tth[0])) < 1e-8
-        return bool(ok), {"tth_back": t2[0], "eta_back": e2[0]}
+        C = tr.Ctransform(case["pars"])
+        geo = C.xyz2geometry(C.sf2xyz(np.ascontiguousarray(sc, float), np.ascontiguousarray(fc, float)), om * case["pars"]["omegasign"],
+                             p["t_x"], p["t_y"], p["t_z"])
+        okc = abs(geo[0, 0] - tth[0]) < 1e-8 and abs((geo[0, 1] - eta[0] + 180) % 360 - 180) * np.sin(np.radians(tth[0])) < 1e-8
+        return bool(ok and okc), {"tth_back": t2[0], "eta_back": e2[0], "tth_back_compiled": geo[0, 0], "eta_back_compiled": geo[0, 1]}
     return (not v), {"violations": v[:3]}
